@@ -14,20 +14,24 @@
 (* response of the first closing request), is well-formed for it (status class, Content-Length = body length, *)
 (* HEAD without body, throw => 500, unparsable => status >= 400 or just the close), and the closing request   *)
 (* is followed by the close; a handler's response never appears before the handler was released.              *)
-(* Deviations (known findings, enabled by DevAllowed, taken only when the Abs action is not enabled, recorded *)
-(* in `used` and printed with the execution number at Reset):                                                 *)
+(* The check validates in two passes.  Eval = TRUE: the Abs actions only, but an event that Abs cannot take    *)
+(* marks the execution (ok = FALSE) instead of blocking, and Reset prints <<"NOTABS", execution number>> - a   *)
+(* deterministic pass that tells which executions the property does not explain.  Eval = FALSE (only those     *)
+(* executions): Abs actions and the deviation actions in DevAllowed (known findings), blocking; the deviation  *)
+(* actions an accepted execution needed are recorded in `used` and printed at Reset:                           *)
 (*   DevRespOutOfOrder   a well-formed response of ANOTHER unanswered request is written first - responses    *)
 (*                       leave in handler completion order (F-16a)                                            *)
 (*   DevCloseOvertakes   a close (after the response of a later closing request, or by the I/O thread for an  *)
 (*                       undecidable message) ends the connection while earlier requests are unanswered       *)
 EXTENDS TraceBase, FiniteSets, Integers
 
-CONSTANT DevAllowed     \* subset of {"DevRespOutOfOrder", "DevCloseOvertakes"}
+CONSTANTS DevAllowed,   \* subset of {"DevRespOutOfOrder", "DevCloseOvertakes"}
+          Eval          \* TRUE: first pass (see above)
 
-VARIABLES reqs, released, answered, used, xn
-vars == <<l, reqs, released, answered, used, xn>>
+VARIABLES reqs, released, answered, used, xn, ok
+vars == <<l, reqs, released, answered, used, xn, ok>>
 
-Init == l = 1 /\ reqs = <<>> /\ released = {} /\ answered = <<>> /\ used = {} /\ xn = 0
+Init == l = 1 /\ reqs = <<>> /\ released = {} /\ answered = <<>> /\ used = {} /\ xn = 0 /\ ok = TRUE
 
 Gated(r) == r.k \in {"G", "H", "P", "C", "T", "R"}
 Closing(r) == r.close \/ r.k \in {"B", "U"}
@@ -52,19 +56,20 @@ Fits(ev, j) ==
          [] OTHER -> FALSE
     /\ Gated(r) => j \in released
 
-EvBegin == /\ IsEv("Begin") /\ reqs' = Ev.reqs /\ released' = {} /\ answered' = <<>> /\ used' = {} /\ UNCHANGED xn
-EvRelease == /\ IsEv("Release") /\ Ev.i \in 1..N /\ released' = released \cup {Ev.i} /\ UNCHANGED <<reqs, answered, used, xn>>
+EvBegin == /\ IsEv("Begin") /\ reqs' = Ev.reqs /\ released' = {} /\ answered' = <<>> /\ used' = {} /\ ok' = TRUE /\ UNCHANGED xn
+EvRelease == /\ IsEv("Release") /\ Ev.i \in 1..N /\ released' = released \cup {Ev.i} /\ UNCHANGED <<reqs, answered, used, xn, ok>>
 
 AbsRespOk(ev) == LET k == Len(answered) + 1 IN
     InOrderSoFar /\ k <= N /\ k <= FirstClosing /\ Fits(ev, k)
 EvResp == /\ IsEv("Resp") /\ AbsRespOk(Ev)
-          /\ answered' = Append(answered, Len(answered) + 1) /\ UNCHANGED <<reqs, released, used, xn>>
+          /\ answered' = Append(answered, Len(answered) + 1) /\ UNCHANGED <<reqs, released, used, xn, ok>>
 DevRespOutOfOrder ==
-    /\ IsEv("Resp") /\ ~AbsRespOk(Ev) /\ "DevRespOutOfOrder" \in DevAllowed
+    /\ IsEv("Resp") /\ ~Eval /\ "DevRespOutOfOrder" \in DevAllowed
     /\ \E j \in (1..N) \ Answered :
          /\ Fits(Ev, j)
+         /\ ~(InOrderSoFar /\ j = Len(answered) + 1 /\ j <= FirstClosing)      \* not what Abs would do
          /\ answered' = Append(answered, j)
-    /\ used' = used \cup {"DevRespOutOfOrder"} /\ UNCHANGED <<reqs, released, xn>>
+    /\ used' = used \cup {"DevRespOutOfOrder"} /\ UNCHANGED <<reqs, released, xn, ok>>
 
 AbsEndOk(ev) ==
     LET c == FirstClosing IN
@@ -72,17 +77,24 @@ AbsEndOk(ev) ==
     /\ IF c > N THEN Answered = 1..N
        ELSE /\ ev.closed
             /\ Answered = 1..c \/ (RespOptional(reqs[c]) /\ Answered = 1..(c - 1))
-EvEnd == IsEv("End") /\ AbsEndOk(Ev) /\ UNCHANGED <<reqs, released, answered, used, xn>>
+EvEnd == IsEv("End") /\ AbsEndOk(Ev) /\ UNCHANGED <<reqs, released, answered, used, xn, ok>>
 DevCloseOvertakes ==
-    /\ IsEv("End") /\ ~AbsEndOk(Ev) /\ "DevCloseOvertakes" \in DevAllowed
+    /\ IsEv("End") /\ ~Eval /\ ~AbsEndOk(Ev) /\ "DevCloseOvertakes" \in DevAllowed
     /\ Ev.left = 0 /\ ~Ev.garbage /\ Ev.closed
     /\ \E j \in 1..N : Closing(reqs[j]) /\ (j \in Answered \/ RespOptional(reqs[j]))     \* somebody did close
-    /\ used' = used \cup {"DevCloseOvertakes"} /\ UNCHANGED <<reqs, released, answered, xn>>
+    /\ used' = used \cup {"DevCloseOvertakes"} /\ UNCHANGED <<reqs, released, answered, xn, ok>>
+
+\* first pass only: an event the property does not explain marks the execution and is skipped
+EvalSkip == /\ Eval
+            /\ \/ IsEv("Resp") /\ ~AbsRespOk(Ev)
+               \/ IsEv("End") /\ ~AbsEndOk(Ev)
+            /\ ok' = FALSE /\ UNCHANGED <<reqs, released, answered, used, xn>>
 
 EvReset == /\ IsEv("Reset")
            /\ (used # {} => PrintT(<<"DEVS", xn, used>>))
-           /\ reqs' = <<>> /\ released' = {} /\ answered' = <<>> /\ used' = {} /\ xn' = xn + 1
+           /\ (~ok => PrintT(<<"NOTABS", xn>>))
+           /\ reqs' = <<>> /\ released' = {} /\ answered' = <<>> /\ used' = {} /\ xn' = xn + 1 /\ ok' = TRUE
 
-Next == EvBegin \/ EvRelease \/ EvResp \/ DevRespOutOfOrder \/ EvEnd \/ DevCloseOvertakes \/ EvReset
+Next == EvBegin \/ EvRelease \/ EvResp \/ DevRespOutOfOrder \/ EvEnd \/ DevCloseOvertakes \/ EvalSkip \/ EvReset
 Spec == Init /\ [][Next]_vars
 ==============================================================================
